@@ -37,6 +37,24 @@ def recDirGather (fs : FS) (root : APath) (hidden : Bool) : List FileRec :=
     | some rel => if e.kind = .dir ∧ (hidden ∨ rel.all (fun n => !isHiddenName n)) then some ⟨root, ⟨false, rel⟩⟩ else none
     | none => none)
 
+/-! ### the traversal (`_gather_in`) -/
+
+/-- `directory.iterdir()`: the entries whose parent is `d` (in listing order) -/
+def iterdir (fs : FS) (d : APath) : List Entry := fs.filter (fun e => e.path ≠ [] ∧ e.path.dropLast = d)
+
+/-- `RecursiveFileGatherer._gather_in` (`dirs = false`) and `RecursiveDirectoryGatherer._gather_in`
+    (`dirs = true`): list the directory, skip hidden names unless included, yield / descend.
+    `fuel` bounds the depth of the recursion. -/
+def gatherIn (fs : FS) (hidden dirs : Bool) : Nat → APath → List APath
+  | 0, _ => []
+  | fuel + 1, d => (iterdir fs d).flatMap (fun e =>
+      match e.path.getLast? with
+      | none => []
+      | some n =>
+        if !hidden && isHiddenName n then []
+        else if e.kind = .dir then (if dirs then [e.path] else []) ++ gatherIn fs hidden dirs fuel e.path
+        else (if dirs then [] else [e.path]))
+
 /-- `ExplicitFileGatherer`: `File(file.parent, file.name)`; not subject to the hidden rule -/
 def explicitGather (paths : List APath) : List FileRec :=
   paths.filterMap (fun p => match p.getLast? with | some n => some ⟨p.dropLast, ⟨false, [n]⟩⟩ | none => none)
@@ -49,6 +67,17 @@ def gather (fs : FS) (mode : GMode) (recursive hidden : Bool) (dirs files : List
   | _ =>
     dirs.flatMap (fun d => if recursive then recFileGather fs d hidden else flatGather fs d hidden) ++
       explicitGather files
+
+/-- the same choice of gatherers, computed by the traversal (`_gather_in`) instead of the selection; the depth
+    bound `fs.length + 1` exceeds the depth of every entry of a tree -/
+def gatherWalk (fs : FS) (mode : GMode) (recursive hidden : Bool) (dirs files : List APath) : List FileRec :=
+  let below := fun (dirsWanted : Bool) (d : APath) =>
+    (gatherIn fs hidden dirsWanted (fs.length + 1) d).map (fun p => (⟨d, ⟨false, p.drop d.length⟩⟩ : FileRec))
+  match mode with
+  | .directory =>
+    if recursive then dirs.flatMap (below true) else explicitGather dirs
+  | _ =>
+    dirs.flatMap (fun d => if recursive then below false d else flatGather fs d hidden) ++ explicitGather files
 
 /-- `Pipeline.execute`'s filtering step, with `FileFilterInverter` -/
 def selectFiles (gathered : List FileRec) (f : FileRec → Bool) (invert : Bool) : List FileRec :=
